@@ -36,7 +36,7 @@ import (
 )
 
 func main() {
-	if len(os.Args) > 3 && os.Args[1] == "-child" {
+	if len(os.Args) > 4 && os.Args[1] == "-child" {
 		childMain()
 		return
 	}
@@ -75,7 +75,11 @@ func childMain() {
 		progressFile, _ = os.Create(p)
 	}
 	c := vkit.NewCollector("C14", seed, "child")
-	runInProcess(c, vkit.NewRng(seed), budget)
+	if os.Args[4] == "controlled" {
+		runControlled(c, vkit.NewRng(seed), budget)
+	} else {
+		runFree(c, vkit.NewRng(seed), budget)
+	}
 	out := childOut{Cases: c.Cases, Violations: c.Violations, Classes: c.Classes, Evals: c.Evals, Samples: c.Samples, Extra: c.Extra}
 	for k := range c.NonTrivial {
 		out.NonTrivial = append(out.NonTrivial, k)
@@ -84,8 +88,16 @@ func childMain() {
 }
 
 func run(c *vkit.Collector, rng *vkit.Rng, budget int) {
+	for _, phase := range []string{"controlled", "free-running"} {
+		runChild(c, rng, budget, phase)
+	}
+	// the same rounds under the race detector
+	raceRun(c, rng, budget)
+}
+
+func runChild(c *vkit.Collector, rng *vkit.Rng, budget int, phase string) {
 	prog, _ := filepath.Abs(filepath.Join("..", "build", "C14_progress.txt"))
-	cmd := exec.Command(os.Args[0], "-child", fmt.Sprint(rng.U64()>>1), fmt.Sprint(budget))
+	cmd := exec.Command(os.Args[0], "-child", fmt.Sprint(rng.U64()>>1), fmt.Sprint(budget), phase)
 	cmd.Env = append(os.Environ(), "C14_PROGRESS="+prog)
 	var so, se bytes.Buffer
 	cmd.Stdout, cmd.Stderr = &so, &se
@@ -96,9 +108,9 @@ func run(c *vkit.Collector, rng *vkit.Rng, budget int) {
 	}
 	if err != nil {
 		last, _ := os.ReadFile(prog)
-		c.Violate("concurrent.crash", "the process running the concurrent schedules died: "+err.Error()+": "+firstN(strings.ReplaceAll(se.String(), "\n", " | "), 700),
+		c.Violate(phase+".crash", "the process running the "+phase+" schedules died: "+err.Error()+": "+firstN(strings.ReplaceAll(se.String(), "\n", " | "), 700),
 			map[string]interface{}{"running": string(last), "stderr": firstN(se.String(), 3000)})
-		c.Check("concurrent schedules ran to completion", "false")
+		c.Check(phase+" schedules ran to completion", "false")
 	} else {
 		c.Cases = append(c.Cases, out.Cases...)
 		for _, v := range out.Violations {
@@ -118,8 +130,6 @@ func run(c *vkit.Collector, rng *vkit.Rng, budget int) {
 			c.Extra[k] = v
 		}
 	}
-	// the same rounds under the race detector
-	raceRun(c, rng, budget)
 }
 
 func ll(lat, lng float64) s2.Point { return s2.PointFromLatLng(s2.LatLngFromDegrees(lat, lng)) }
@@ -426,7 +436,7 @@ func coqList(xs []int) string {
 	return "[" + strings.Join(s, "; ") + "]"
 }
 
-func runInProcess(c *vkit.Collector, rng *vkit.Rng, budget int) {
+func runControlled(c *vkit.Collector, rng *vkit.Rng, budget int) {
 	t0 := time.Now()
 	sp := stress.Spec{Lat: 12, Lng: 25, R: 9, N: 100}
 	all := workloads(sp)
@@ -558,7 +568,10 @@ func runInProcess(c *vkit.Collector, rng *vkit.Rng, budget int) {
 	c.Extra["controlled_seconds"] = time.Since(t0).Seconds()
 	c.Extra["serial_cell_writes"] = serialCells
 
-	// free-running rounds
+}
+
+// free-running rounds
+func runFree(c *vkit.Collector, rng *vkit.Rng, budget int) {
 	t1 := time.Now()
 	progress("free-running rounds (8..32 goroutines)")
 	fails, evals, classes := stress.Rounds(rng, 60*budget)
